@@ -185,8 +185,177 @@ fn caller(p: &Plan) -> Obs {
     Obs { start, t_out, res }
 }
 
+/// Two connections to the same name inside one `send()`: the first hop is answered (with a redirect to the
+/// same host) by the address that is first in the order; before the second hop that address may go away.
+/// Every connection of a request is a race of its own: the second one, too, finds an address that accepts
+/// within one race interval per position, whatever happened on the first.
+fn two_hop_family(g: &mut G, ctx: &RunCtx) -> RunReport {
+    g.probe("family:second-connection-after-a-redirect");
+    let n6 = g.range(0, 2) as usize;
+    let n4 = (g.range(0, 2) as usize).max(2usize.saturating_sub(n6));
+    let mut order: Vec<IpAddr> = Vec::new();
+    for i in 0..n6.max(n4) {
+        if i < n6 {
+            order.push(format!("2001:db8::{}", i + 1).parse().unwrap());
+        }
+        if i < n4 {
+            order.push(format!("192.0.2.{}", i + 1).parse().unwrap());
+        }
+    }
+    // resolver order: v4 first or v6 first (the library sorts into the order above either way)
+    let mut resolver = order.clone();
+    if g.chance(1, 2) {
+        resolver.sort_by_key(|a| a.is_ipv6());
+    }
+    let lat1 = *g.pick(&[0u64, 1, 50, 150]) * NS_PER_MS;
+    // second-hop behaviour per position
+    let mut second: Vec<ConnectBehaviour> = Vec::new();
+    for i in 0..order.len() {
+        let b = match g.below(4) {
+            0 => ConnectBehaviour::Accept { latency_ns: *g.pick(&[0u64, 1, 100, 250]) * NS_PER_MS },
+            1 => ConnectBehaviour::Refuse { latency_ns: *g.pick(&[0u64, 20, 300]) * NS_PER_MS },
+            _ => ConnectBehaviour::Blackhole,
+        };
+        // the interesting case: the address that served the first hop no longer answers
+        second.push(if i == 0 && g.chance(2, 3) { ConnectBehaviour::Blackhole } else { b });
+    }
+    let ct = *g.pick(&[3_000u64, 30_000]) * NS_PER_MS;
+    let status = *g.pick(&[302u16, 307, 301]);
+    let sim = Sim::new(ctx.sim_config());
+    sim.add_host(HOST, resolver.clone());
+    let seen = Arc::new(Mutex::new(Seen::default()));
+    for (i, ip) in order.iter().enumerate() {
+        let body = ip.to_string();
+        let seen2 = seen.clone();
+        let factory: attosim::PeerFactory = Box::new(move |_i| {
+            let body = body.clone();
+            Box::new(HttpPeer::new(
+                Arc::new(move |r, _c| {
+                    let mut s = Script::default();
+                    if r.target == "/first" {
+                        s.acts.push(Act::Send(format!("HTTP/1.1 {} Moved\r\nLocation: /second\r\nContent-Length: 0\r\n\r\n", status).into_bytes()));
+                    } else {
+                        s.acts.push(Act::Send(format!("HTTP/1.1 200 OK\r\nContent-Length: {}\r\n\r\n{}", body.len(), body).into_bytes()));
+                    }
+                    s.acts.push(Act::Fin);
+                    s
+                }),
+                seen2.clone(),
+            ))
+        });
+        if i == 0 {
+            sim.add_listener(*ip, 80, ConnectBehaviour::Accept { latency_ns: lat1 }, Some(factory));
+            sim.set_later_behaviours(*ip, 80, vec![second[0]]);
+        } else {
+            // not dialled on the first hop (the first address answers within the race interval)
+            sim.add_listener(*ip, 80, second[i], Some(factory));
+        }
+    }
+    let out = sim.run(|| {
+        let start = attosim::now_ns();
+        let r = attohttpc::get(format!("http://{}/first", HOST)).connect_timeout(Duration::from_nanos(ct)).read_timeout(Duration::from_secs(5)).send();
+        let res = match r {
+            Err(e) => Err(err_kind(&e)),
+            Ok(resp) => {
+                let st = resp.status().as_u16();
+                match resp.bytes() {
+                    Ok(b) => Ok((st, b)),
+                    Err(e) => Err(format!("body:{}", err_kind(&e))),
+                }
+            }
+        };
+        Obs { start, t_out: attosim::now_ns(), res }
+    });
+    let mut stats = Stats::default();
+    stats.absorb(&out.history);
+    let h = &out.history;
+    let beh = |b: &ConnectBehaviour| match b {
+        ConnectBehaviour::Accept { latency_ns } => format!("A{}", latency_ns / NS_PER_MS),
+        ConnectBehaviour::Refuse { latency_ns } => format!("R{}", latency_ns / NS_PER_MS),
+        ConnectBehaviour::Blackhole => "B".to_string(),
+    };
+    let desc = format!("order={:?} first-hop latency {}ms, second hop {:?}, connect_timeout={}ms", order, lat1 / NS_PER_MS, second.iter().map(beh).collect::<Vec<_>>(), ct / NS_PER_MS);
+    let verdict = (|| -> Verdict {
+        let o = match &out.result {
+            None => return violation("hang", "connect never finished"),
+            Some(Err(m)) => return violation("panic", m.clone()),
+            Some(Ok(o)) => o,
+        };
+        if h.deadlock {
+            return violation("thread-leak", "racing threads blocked forever after the caller finished");
+        }
+        // the first hop: one attempt, to the first address
+        let mut started: Vec<&attosim::ConnectRec> = h.connects.iter().chain(h.pending_connects.iter()).collect();
+        started.sort_by_key(|c| (c.t_start, c.seq));
+        let Some(first) = started.first() else {
+            return violation("nothing-dialled", desc.clone());
+        };
+        if first.addr.ip() != order[0] {
+            return violation("order-violated", format!("the first hop dialled {} first, expected {} ({})", first.addr, order[0], desc));
+        }
+        // when did the redirect arrive?  (all of it in one segment, no delay)
+        let Some(t1) = h.conns.first().and_then(|c| c.events.iter().find_map(|e| if let ConnEv::Delivered { t, .. } = e { Some(*t) } else { None })) else {
+            return violation("harness:first-hop-not-answered", desc.clone());
+        };
+        // the first hop needs one attempt (its address answers within the race interval)
+        let hop2: Vec<&&attosim::ConnectRec> = started.iter().skip(1).collect();
+        // expected: the order again, one race interval apart at most
+        let mut best = u64::MAX;
+        for (i, b) in second.iter().enumerate() {
+            if let ConnectBehaviour::Accept { latency_ns } = b {
+                if *latency_ns <= ct {
+                    best = best.min(t1 + i as u64 * RACE + latency_ns);
+                }
+            }
+        }
+        for (i, c) in hop2.iter().enumerate() {
+            if i < order.len() && c.addr.ip() != order[i] {
+                return violation("order-violated", format!("second connection: attempt {} went to {}, expected {} ({})", i, c.addr, order[i], desc));
+            }
+        }
+        match &o.res {
+            Ok((200, body)) => {
+                let who = String::from_utf8_lossy(body).to_string();
+                let Some(i) = order.iter().position(|a| a.to_string() == who) else {
+                    return violation("served-by-unknown-peer", who);
+                };
+                if !matches!(second[i], ConnectBehaviour::Accept { .. }) {
+                    return violation("served-by-non-accepting-address", who);
+                }
+                let t_write = h.conns.iter().skip(1).find_map(|c| c.events.iter().find_map(|e| if let ConnEv::Write { t, .. } = e { Some(*t) } else { None })).unwrap_or(u64::MAX);
+                if t_write > best {
+                    return violation(
+                        "second-connection-too-slow",
+                        format!("the second request was first written at {}ms; an accepting address was reachable by {}ms (redirect at {}ms + position x 200ms + its latency); {}", t_write / NS_PER_MS, best / NS_PER_MS, t1 / NS_PER_MS, desc),
+                    );
+                }
+                Verdict::Pass
+            }
+            Ok((st, _)) => violation("harness:status", format!("status {}", st)),
+            Err(k) => {
+                if best != u64::MAX {
+                    return violation(format!("reachable-address-not-used:{}", k), format!("send() failed with {} although an address accepts on the second connection ({})", k, desc));
+                }
+                Verdict::Pass
+            }
+        }
+    })();
+    RunReport {
+        verdict,
+        shape: format!("two-hop/{}x{}/lat1={}/second={:?}/ct={}", n6, n4, lat1 / NS_PER_MS, second.iter().map(beh).collect::<Vec<_>>(), ct / NS_PER_MS),
+        nontrivial: true,
+        stats,
+        sched_tape: out.sched_tape,
+        describe: if ctx.describe { desc } else { String::new() },
+    }
+}
+
 pub fn scenario(g: &mut G, ctx: &RunCtx) -> RunReport {
     let p = gen(g);
+    // drawn after the plan: recorded tapes keep their meaning
+    if g.chance(1, 8) {
+        return two_hop_family(g, ctx);
+    }
     let sim = Sim::new(ctx.sim_config());
     if p.resolvable {
         sim.add_host(HOST, p.addrs.iter().map(|a| a.ip).collect());
